@@ -187,6 +187,17 @@ func r12b(c *core.Ctx) {
 		}
 		walk(phi0)
 	}
+	// or the scan's helper was expanded and its two returns threaded into the branches: the OPT is added inside the scan
+	// of m.Additionals where the record's type is OPT, and removed where the scan ran to its end
+	if !okScan {
+		if hasCond(add.Block(), ".Hdr().Type == 41)", true) && (strings.Contains(condList(add.Block()), "m.Additionals") || rangesOver(hm, add.Block(), "m.Additionals")) &&
+			!hasCond(pop.Block(), ".Hdr().Type == 41)", true) {
+			// the remove branch is not reachable from the add branch's scan hit
+			if core.Reach(hm, add.(ssa.Instruction), func(in ssa.Instruction) bool { return in == pop.(ssa.Instruction) }, nil) == nil {
+				okScan = true
+			}
+		}
+	}
 	// or the scan lives in a helper called with the query: it returns true only on the OPT-type edge of a scan of its
 	// parameter's additionals, and false otherwise
 	if call, ok := cond.(*ssa.Call); ok && !okScan {
@@ -484,6 +495,50 @@ func r12d(c *core.Ctx) {
 					}
 					if k == a.mask && fromUnmapped {
 						maskedOK = true
+					}
+				}
+			}
+		}
+		// or the masking is spelled out in place (the mask helper expanded): X.AsN() with X = P.Addr(), P = U.Prefix(mask),
+		// U the unmapped address, mask the arm's constant
+		if !maskedOK {
+			for _, call := range core.Calls(mk) {
+				cc, ok := call.(*ssa.Call)
+				if !ok || !(gb.Block().Dominates(cc.Block()) || cc.Block() == gb.Block()) || !strings.HasSuffix(core.CallName(cc), wantFn[:len(wantFn)-2]) {
+					continue
+				}
+				for _, o := range core.Origins(cc.Call.Args[0], core.OriginOpts{}) {
+					ac, ok := o.(*ssa.Call)
+					if !ok || core.CallName(ac) != "(net/netip.Prefix).Addr" {
+						continue
+					}
+					for _, o2 := range core.Origins(ac.Call.Args[0], core.OriginOpts{}) {
+						ex, ok := o2.(*ssa.Extract)
+						if !ok {
+							continue
+						}
+						pc, ok := ex.Tuple.(*ssa.Call)
+						if !ok || core.CallName(pc) != "(net/netip.Addr).Prefix" {
+							continue
+						}
+						bitsOK := false
+						for _, o3 := range core.Origins(pc.Call.Args[1], core.OriginOpts{}) {
+							if k, isC := core.ConstInt(o3); isC && k == a.mask {
+								bitsOK = true
+							} else {
+								bitsOK = false
+								break
+							}
+						}
+						fromUnmapped := false
+						for _, o3 := range core.Origins(pc.Call.Args[0], core.OriginOpts{}) {
+							if o3 == ssa.Value(unmap) {
+								fromUnmapped = true
+							}
+						}
+						if bitsOK && fromUnmapped {
+							maskedOK = true
+						}
 					}
 				}
 			}
